@@ -5,9 +5,11 @@ import (
 	"go/token"
 	"go/types"
 	"sort"
+	"strings"
 
 	"golang.org/x/tools/go/ssa"
 
+	"redactverif/load"
 	"redactverif/report"
 )
 
@@ -256,6 +258,293 @@ func ruleC09s(c *Ctx) []*report.Result {
 				}
 			}
 		}
+	}
+	return []*report.Result{r}
+}
+
+func init() {
+	register("C07.g", ruleC07g)
+	register("C13.e", ruleC13e)
+}
+
+// Rule C07.g — the marker byte slices are nobody's to write.
+//
+// The byte variants of Redact/StripMarkers/Escape and the buffer's marker
+// tests read package-level []byte variables (start, end, escape, redacted).
+// Deciding the patterns and the replacement constants says what these slices
+// hold after initialisation; it holds for the life of the process only if no
+// alias of them ever reaches code that may write: a function returning one
+// (StartMarker() handing out the shared slice instead of a copy), a store
+// into a structure, a call that may keep or modify its argument. Every use of
+// every package-level slice variable of the module must be a read: len/cap,
+// indexing, ranging, slicing (the result under the same rule), the source of
+// append(dst, v...) or copy(dst, v), an argument of a read-only library
+// function (bytes.Equal/HasPrefix/HasSuffix/Index/Contains/Compare, the
+// replacement of (*regexp.Regexp).ReplaceAll, string(v)), or an argument of a
+// module function whose parameter obeys the same rule.
+func ruleC07g(c *Ctx) []*report.Result {
+	r := report.NewResult("C07.g", "no alias of a package-level byte slice of the module (the marker, escape and replacement constants in []byte form) escapes to code that may write it: every use of a value loaded from such a variable is a read (len, index, range, slice, source of append/copy, read-only library call, conversion to string, or a module function whose parameter is used the same way); none is returned, stored or handed to unknown code", 4)
+	readOnly := map[string][]int{ // callee -> argument positions that are only read (nil: all)
+		"bytes.Equal": nil, "bytes.HasPrefix": nil, "bytes.HasSuffix": nil, "bytes.Index": nil, "bytes.Contains": nil, "bytes.Compare": nil,
+		"bytes.LastIndex": nil, "bytes.IndexByte": nil, "bytes.Count": nil, "unicode/utf8.DecodeLastRune": nil, "unicode/utf8.DecodeRune": nil,
+		"(*regexp.Regexp).ReplaceAll": {2}, "(*regexp.Regexp).Match": nil, "(*bytes.Buffer).Write": {1}, "(*strings.Builder).Write": {1},
+	}
+	var usesOK func(v ssa.Value, depth int) (bool, string, ssa.Instruction)
+	usesOK = func(v ssa.Value, depth int) (bool, string, ssa.Instruction) {
+		if depth > 6 || v.Referrers() == nil {
+			return depth <= 6, "alias chain too deep", nil
+		}
+		for _, u := range *v.Referrers() {
+			switch x := u.(type) {
+			case *ssa.DebugRef, *ssa.Range, *ssa.Lookup:
+			case *ssa.IndexAddr:
+				// an element address: only loads of it
+				if x.Referrers() != nil {
+					for _, uu := range *x.Referrers() {
+						switch y := uu.(type) {
+						case *ssa.UnOp, *ssa.DebugRef:
+						case *ssa.Store:
+							if y.Addr == ssa.Value(x) {
+								return false, "an element is assigned", uu
+							}
+						default:
+							return false, "an element's address escapes", uu
+						}
+					}
+				}
+			case *ssa.Slice:
+				if ok, why, at := usesOK(x, depth+1); !ok {
+					return false, why, at
+				}
+			case *ssa.Phi:
+				if ok, why, at := usesOK(x, depth+1); !ok {
+					return false, why, at
+				}
+			case *ssa.Convert:
+				if bt, ok := x.Type().Underlying().(*types.Basic); ok && bt.Info()&types.IsString != 0 {
+					continue // string(v) copies
+				}
+				return false, "converted to " + x.Type().String(), u
+			case *ssa.ChangeType:
+				if ok, why, at := usesOK(x, depth+1); !ok {
+					return false, why, at
+				}
+			case *ssa.Return:
+				return false, "returned to the caller", u
+			case *ssa.Store:
+				if x.Val == v {
+					return false, "stored", u
+				}
+			case *ssa.MakeInterface:
+				return false, "boxed in an interface", u
+			case ssa.CallInstruction:
+				cm := x.Common()
+				if bi, ok := cm.Value.(*ssa.Builtin); ok {
+					switch bi.Name() {
+					case "len", "cap":
+						continue
+					case "append", "copy":
+						if len(cm.Args) == 2 && cm.Args[1] == v && cm.Args[0] != v {
+							continue // the source
+						}
+						return false, "destination of " + bi.Name(), u
+					}
+					return false, "builtin " + bi.Name(), u
+				}
+				f := cm.StaticCallee()
+				if f == nil {
+					return false, "handed to a dynamic call", u
+				}
+				if pos, ok := readOnly[f.String()]; ok {
+					okPos := pos == nil
+					for i, a := range cm.Args {
+						if a == v {
+							for _, p := range pos {
+								if p == i {
+									okPos = true
+								}
+							}
+						}
+					}
+					if okPos {
+						continue
+					}
+					return false, "handed to " + f.String() + " in a position it may write", u
+				}
+				if c.P.InModule(f) && f.Blocks != nil {
+					for i, a := range cm.Args {
+						if a == v && i < len(f.Params) {
+							if ok, why, at := usesOK(f.Params[i], depth+1); !ok {
+								return false, "through " + shortFn(f.String()) + ": " + why, at
+							}
+						}
+					}
+					continue
+				}
+				return false, "handed to " + f.String(), u
+			case *ssa.UnOp, *ssa.BinOp, *ssa.If:
+			default:
+				return false, fmt.Sprintf("used by %T", u), u
+			}
+		}
+		return true, "", nil
+	}
+	n := 0
+	for _, pk := range c.P.Prog.AllPackages() {
+		if pk.Pkg == nil || !strings.HasPrefix(pk.Pkg.Path(), load.ModPath) {
+			continue
+		}
+		var names []string
+		for name := range pk.Members {
+			names = append(names, name)
+		}
+		sort.Strings(names)
+		for _, name := range names {
+			g, ok := pk.Members[name].(*ssa.Global)
+			if !ok {
+				continue
+			}
+			if _, isSlice := g.Type().(*types.Pointer).Elem().Underlying().(*types.Slice); !isSlice {
+				continue
+			}
+			n++
+			construct := pk.Pkg.Path() + "." + name
+			okAll := true
+			for _, fn := range c.P.ModuleFunctions() {
+				for _, b := range fn.Blocks {
+					for _, ins := range b.Instrs {
+						ld, ok := ins.(*ssa.UnOp)
+						if !ok || ld.Op != token.MUL || ld.X != ssa.Value(g) {
+							// the variable's address used otherwise than by a load or the initialiser's store
+							for _, op := range ins.Operands(nil) {
+								if *op == ssa.Value(g) {
+									if st, isSt := ins.(*ssa.Store); isSt && st.Addr == ssa.Value(g) && fn.Name() == "init" {
+										continue
+									}
+									if _, isLd := ins.(*ssa.UnOp); isLd {
+										continue
+									}
+									okAll = false
+									r.Fail(construct, c.P.Pos(ins.Pos()), "the address of the variable is taken or it is assigned outside the initialiser in "+shortFn(fn.String()), nil, "")
+								}
+							}
+							continue
+						}
+						if ok, why, at := usesOK(ld, 0); !ok {
+							okAll = false
+							pos := c.P.Pos(ld.Pos())
+							if at != nil && at.Pos().IsValid() {
+								pos = c.P.Pos(at.Pos())
+							}
+							r.Fail(construct+" in "+shortFn(fn.String()), pos, "an alias of the shared slice leaves the reader's hands ("+why+"): whoever receives it can overwrite the constant every later call reads — the byte variants of Redact/StripMarkers and the buffer's marker tests stop agreeing with the string variants", nil, "")
+						}
+					}
+				}
+			}
+			if okAll {
+				r.Ok(construct + ": only read")
+			}
+		}
+	}
+	if n == 0 {
+		r.Undecide("no package-level slice variable found (the marker byte constants were expected)")
+	}
+	return []*report.Result{r}
+}
+
+// Rule C13.e — a string that shares the buffer's bytes owns them.
+//
+// Go strings are immutable by contract; a string obtained by reinterpreting
+// the buffer's byte storage (unsafe.Pointer) stays valid only if the buffer
+// gives the storage up in the same breath. Every such reinterpretation in the
+// module must be an ownership transfer: the storage is a field of the object
+// the method's POINTER receiver points to (not of a local copy, whose bytes
+// are still the caller's live storage), and on every path from the
+// reinterpretation to a return the field is assigned nil.
+func ruleC13e(c *Ctx) []*report.Result {
+	r := report.NewResult("C13.e", "every reinterpretation of byte storage as a string without copying (through unsafe.Pointer) is an ownership transfer: the storage is a field reached from the method's pointer receiver and on every path to a return that field is assigned nil; an accessor on a copy never hands out a string over the live bytes (later writes, Reset and reuse would change a string a caller holds)", 1)
+	n := 0
+	for _, fn := range c.P.ModuleFunctions() {
+		for _, b := range fn.Blocks {
+			for _, ins := range b.Instrs {
+				cv, ok := ins.(*ssa.Convert)
+				if !ok {
+					continue
+				}
+				if bt, ok := cv.X.Type().Underlying().(*types.Basic); !ok || bt.Kind() != types.UnsafePointer {
+					continue
+				}
+				// unsafe.Pointer -> *T
+				src, ok := cv.X.(*ssa.Convert)
+				if !ok {
+					r.Fail(shortFn(fn.String())+" / unsafe conversion", c.P.Pos(cv.Pos()), "an unsafe.Pointer of unknown origin is converted to "+cv.Type().String(), nil, "")
+					continue
+				}
+				n++
+				construct := shortFn(fn.String()) + " / " + src.X.Type().String() + " reinterpreted as " + cv.Type().String()
+				pos := c.P.Pos(cv.Pos())
+				fa, ok := src.X.(*ssa.FieldAddr)
+				if !ok {
+					r.Fail(construct, pos, "the reinterpreted storage is not a field of the receiver", nil, "")
+					continue
+				}
+				root := fa.X
+				prm, isParam := root.(*ssa.Parameter)
+				if !isParam || len(fn.Params) == 0 || prm != fn.Params[0] || fn.Signature.Recv() == nil {
+					r.Fail(construct, pos, "the storage belongs to a copy (or to something other than the method's pointer receiver): the string shares the bytes of a buffer that stays in use, so later writes, or Reset and reuse, change a string a caller already holds", nil, "")
+					continue
+				}
+				// every path from here to a return assigns nil to that field
+				gives := func(x ssa.Instruction) bool {
+					st, ok := x.(*ssa.Store)
+					if !ok {
+						return false
+					}
+					fa2, ok := st.Addr.(*ssa.FieldAddr)
+					if !ok || fa2.X != root || fa2.Field != fa.Field {
+						return false
+					}
+					k, ok := st.Val.(*ssa.Const)
+					return ok && k.IsNil()
+				}
+				okPaths := true
+				seen := map[*ssa.BasicBlock]bool{}
+				var walk func(bb *ssa.BasicBlock, from int)
+				walk = func(bb *ssa.BasicBlock, from int) {
+					for i := from; i < len(bb.Instrs); i++ {
+						if gives(bb.Instrs[i]) {
+							return
+						}
+						if _, isRet := bb.Instrs[i].(*ssa.Return); isRet {
+							okPaths = false
+							return
+						}
+					}
+					for _, sb := range bb.Succs {
+						if !seen[sb] {
+							seen[sb] = true
+							walk(sb, 0)
+						}
+					}
+				}
+				idx := 0
+				for i, x := range b.Instrs {
+					if x == ins {
+						idx = i
+					}
+				}
+				walk(b, idx+1)
+				if okPaths {
+					r.Ok(construct + ": the receiver gives the storage up on every path")
+				} else {
+					r.Fail(construct, pos, "a path reaches a return without the field being assigned nil: the buffer keeps writing into bytes a returned string shares", nil, "")
+				}
+			}
+		}
+	}
+	if n == 0 {
+		r.Note("no unsafe reinterpretation in the module")
+		r.Ok("module / no string shares byte storage")
 	}
 	return []*report.Result{r}
 }
